@@ -113,11 +113,17 @@ def plan(contract_module, function_names=None, chunk_seconds=UNIT_SECONDS):
     return out
 
 
-def c_units(prop, contract_module, function_names=None, kinds='all', src_dir=None, timeout_ms=None, tiers=None):
+def c_units(prop, contract_module, function_names=None, kinds='all', src_dir=None, timeout_ms=None, tiers=None, config_filter=None):
     """the units of a whole contract module (see plan()); `tiers` overrides the planned tiers"""
     reg = load_registry(contract_module)
     us = []
     for fn, cfgs, shard, w, tr in plan(contract_module, function_names):
+        if config_filter is not None:
+            if cfgs is None:
+                cfgs = [c.get('name', 'default') for c in reg.contracts[fn].configs]
+            cfgs = [c for c in cfgs if config_filter(c)]
+            if not cfgs:
+                continue
         uid = '%s.%s' % (reg.area, fn)
         if cfgs is not None and len(reg.contracts[fn].configs) > 1:
             uid += '[%s]' % (cfgs[0] if len(cfgs) == 1 else '%s..%s' % (cfgs[0], cfgs[-1]))
